@@ -244,9 +244,13 @@ def hosts(ctx):
     if not ctx.quick:
         ex = gen_games.mixed_games(rng, 160, nmin=3, nmax=9, styles=("stopping", "exact", "cyclic", "players"))
         extra = [("rnd%d" % i, g) for i, (g, _) in enumerate(ex)]
+    # a host must be solved in BOTH modes (the cyclic families contain non-stopping games whose unpruned reward
+    # loop never ends; they are not hosts)
     res = impl.run_cases([dict(op="solve", game=enc(g), prune=True, limit=10) for _, g in cand + extra],
                          tag="c09h")
-    ok = [(nm, g) for (nm, g), r in zip(cand + extra, res) if "ok" in r and wfdoc(g)]
+    res2 = impl.run_cases([dict(op="solve", game=enc(g), prune=False, limit=10) for _, g in cand + extra],
+                          tag="c09h")
+    ok = [(nm, g) for (nm, g), r, r2 in zip(cand + extra, res, res2) if "ok" in r and "ok" in r2 and wfdoc(g)]
     fixed = [h for h in ok if h[0] in ("fig55", "three")]
     gen = [h for h in ok if h[0].startswith("gen")][:k]
     rnd = [h for h in ok if h[0].startswith("rnd")][:40]
